@@ -24,10 +24,24 @@ META = {
 HERE = os.path.dirname(os.path.abspath(__file__))
 
 # ------------------------------------------------------------------------------------------------
-# canonical replays of the recorded findings (run first on every run)
+# canonical inputs of every defect found so far (run first on every run).  A defect that is still open in
+# the tree under test shows up as KNOWN-FINDING (if listed `known`) or VIOLATION; after its fix the input
+# stays here as a regression test.  `div` marks the inputs whose crash site is primitive::div/mod: while
+# one of them still crashes the mutator steers around divisions, otherwise divisions are explored too.
 CORPUS = [
-    ("F17", "#if 1\n#elif 1/0\n#endif\n"),
-    ("F18", "#if 0 && 1/0\n#endif\n"),
+    ("F17", "div", "#if 1\n#elif 1/0\n#endif\n"),
+    ("F18", "div", "#if 0 && 1/0\n#endif\n"),
+    ("C16-N01a", "div", "#if 1/0\n#endif\n"),
+    ("C16-N01b", "div", "#if 1 % 0\n#endif\n"),
+    ("C16-N01c", "div", "#if (-2147483647 - 1) / -1\n#endif\n#if (-9223372036854775807L - 1) % -1\n#endif\n"),
+    ("C16-N02", "", "@kernel void k(const int N, float *a) {\n  for (int i = 0; i < N; ++i; @tile(@shared float s[16];, @outer, @inner)) {\n    a[i] = 0;\n  }\n}\n"),
+    ("C16-N03a", "", "#include foo\n"),
+    ("C16-N03b", "", "#include <abc\n"),
+    ("C16-N04a", "", "int x = (double) 1;\n"),
+    ("C16-N04b", "", "@kernel void k(float *a) {\n  for (int i = 0; i < 4; ++i; @tile(2, @outer, @inner)) {\n    a[i] = (double) i;\n  }\n}\n"),
+    ("C16-N06", "", "#define H(x) # y\nH(1)\n"),
+    ("C16-N07", "", "int a;\n#ifndef\nint b;\n#endif\n"),
+    ("C16-N08", "", "@kernel void k(const int N, float *a) {\n  for (int i = 0; i < N; ++i; @tile(16, @outer, @inner)) {\n    a[i] = OCCA_USING_GPU OCCA_USING_GPU\n  }\n}\n"),
 ]
 
 EXTRA_SEEDS = [
@@ -94,7 +108,8 @@ def build_corpus(ck, base):
     # the embedded snippets are many and tiny: group them so that the corpus stays a few dozen entries
     seen = set()
     uniq = [t for t in emb if not (t in seen or seen.add(t))]
-    texts += uniq[:400:4] if len(uniq) > 120 else uniq
+    step = max(1, len(uniq) // 40)
+    texts += uniq[::step][:40]
     texts += EXTRA_SEEDS
     seen = set()
     n = 0
@@ -316,21 +331,26 @@ def main(argv):
         shutil.rmtree(base, ignore_errors=True)
         ck.finish(META["level_text"])
 
-    # 1. canonical replays of recorded findings
+    # 1. canonical inputs of recorded defects
     canon = []
-    for fid, text in CORPUS:
+    for fid, tag, text in CORPUS:
         p = os.path.join(base, "canon-" + fid)
         open(p, "wb").write(text.encode("latin-1"))
-        canon.append((fid, p, text))
+        canon.append((fid, tag, p, text))
+    steer = False
     if canon:
-        r = fz.run_files([p for _, p, _ in canon], cpu=long_cpu)
-        for fid, p, text in canon:
+        r = fz.run_files([p for _, _, p, _ in canon], cpu=long_cpu)
+        still = []
+        for fid, tag, p, text in canon:
             st = r.get(p, ("unreadable", "-", "", ""))
             ck.cov["evaluations"] += 1
-            if st[0] == "ok":
-                ck.notes.append("recorded finding %s no longer reproduces with its canonical input" % fid)
-            else:
-                report(st[1], st[0], st[3], text.encode("latin-1"), "canonical " + fid)
+            if st[0] != "ok":
+                still.append(fid)
+                steer = steer or tag == "div"
+                report(st[1], st[0], "[canonical input of %s] %s" % (fid, st[3]), text.encode("latin-1"), "canonical " + fid)
+        ck.cov["counters"]["canonical_inputs"] = len(canon)
+        ck.cov["counters"]["canonical_inputs_still_failing"] = still
+    ck.cov["counters"]["steering_around_division"] = 1 if steer else 0
 
     # 2. the campaign
     workers = int(os.environ.get("VERIF_FUZZ_WORKERS", str(min(16, os.cpu_count() or 4))))
@@ -338,7 +358,7 @@ def main(argv):
     seeds = [ck.rng.getrandbits(48) for _ in range(workers)]
     outdir = os.path.join(base, "out")
     t0 = time.time()
-    wdirs = fz.campaign(corpus, outdir, seeds, secs)
+    wdirs = fz.campaign(corpus, outdir, seeds, secs, extra=() if steer else ("--raw",))
     ck.cov["counters"]["fuzz_wall_s"] = int(time.time() - t0)
     ck.cov["counters"]["workers"] = workers
     tot = {}
